@@ -94,7 +94,7 @@ def _is_nonlinear(t):
     key = t.get_id()
     r = _NL_CACHE.get(key)
     if r is not None:
-        return r
+        return r[0]
     r = False
     seen = set()
     stack = [t]
@@ -117,9 +117,9 @@ def _is_nonlinear(t):
             elif k == z3.Z3_OP_POWER:
                 r = True
             stack.extend(ch)
-    if len(_NL_CACHE) > 200000:
+    if len(_NL_CACHE) > 100000:
         _NL_CACHE.clear()
-    _NL_CACHE[key] = r
+    _NL_CACHE[key] = (r, t)     # the term is kept alive so that its id cannot be reused while cached
     return r
 
 
@@ -480,7 +480,7 @@ class SymReal:
         q = c.fresh_int("modq")
         Lr = _rv(L)
         c.assume_term(z3.And(z3.ToReal(q) * Lr <= self.t, self.t < (z3.ToReal(q) + 1) * Lr))
-        qv = c.concretize(q, limit=c.mod_window)
+        qv = c.concretize(q, limit=c.mod_window, linear_only=True)
         return SymReal(self.t - _rv(qv) * Lr)
 
     def __round__(self, k=None):
@@ -495,30 +495,36 @@ class SymReal:
         return SymReal(r)
 
     # -- comparisons ---------------------------------------------------------------------
-    def _cmp(self, o, f):
+    def _cmp(self, o, op):
+        f = _OPS[op]
+        if _is_reallike(o) and not isinstance(o, Fraction) and math.isinf(float(o)):
+            # a (finite) symbolic real against +-inf
+            return bool(f(0.0, float(o)))
+        if isinstance(o, Root) and not isinstance(self, Root) and o._var is None:
+            return o._cmp(self, _MIRROR[op])
         if isinstance(o, (SymReal, SymInt)) or _is_intlike(o) or _is_reallike(o) or isinstance(o, bool):
             return SymBool(f(self.t, _rt(o)))
         return NotImplemented
 
     def __eq__(self, o):
-        r = self._cmp(o, lambda a, b: a == b)
+        r = self._cmp(o, "eq")
         return False if r is NotImplemented else r
 
     def __ne__(self, o):
-        r = self._cmp(o, lambda a, b: a != b)
+        r = self._cmp(o, "ne")
         return True if r is NotImplemented else r
 
     def __lt__(self, o):
-        return self._cmp(o, lambda a, b: a < b)
+        return self._cmp(o, "lt")
 
     def __le__(self, o):
-        return self._cmp(o, lambda a, b: a <= b)
+        return self._cmp(o, "le")
 
     def __gt__(self, o):
-        return self._cmp(o, lambda a, b: a > b)
+        return self._cmp(o, "gt")
 
     def __ge__(self, o):
-        return self._cmp(o, lambda a, b: a >= b)
+        return self._cmp(o, "ge")
 
     # -- numpy object-dtype ufunc hooks (np.sqrt(obj_array) calls elem.sqrt()) ------------
     def sqrt(self):
@@ -556,6 +562,11 @@ class SymReal:
 
 def _div(a, b):
     return a / b
+
+
+_OPS = {"eq": lambda a, b: a == b, "ne": lambda a, b: a != b, "lt": lambda a, b: a < b, "le": lambda a, b: a <= b,
+        "gt": lambda a, b: a > b, "ge": lambda a, b: a >= b}
+_MIRROR = {"eq": "eq", "ne": "ne", "lt": "gt", "le": "ge", "gt": "lt", "ge": "le"}
 
 
 class Root(SymReal):
@@ -601,14 +612,24 @@ class Root(SymReal):
             return Root(self.rad * o.rad, self.n)
         return SymReal.__mul__(self, o)
 
-    def _cmp(self, o, f):
+    def _cmp(self, o, op):
+        f = _OPS[op]
+        if _is_reallike(o) and not isinstance(o, Fraction) and math.isinf(float(o)):
+            return bool(f(0.0, float(o)))
         if isinstance(o, Root) and o.n == self.n and self._var is None and o._var is None:
             return SymBool(f(self.rad.t, o.rad.t))
-        if (_is_intlike(o) or _is_reallike(o)) and self._var is None:
-            c = _fr(o)
-            if c >= 0:
-                return SymBool(f(self.rad.t, _rv(c ** self.n)))
-        return SymReal._cmp(self, o, f)
+        if self._var is None and self.n % 2 == 0 and (isinstance(o, (SymReal, SymInt)) or _is_intlike(o) or _is_reallike(o)):
+            # compare the (non-negative) root with an arbitrary real without introducing the root:
+            #   root > o  <=>  o < 0 or rad > o^n     root < o  <=>  o > 0 and rad < o^n   etc.
+            ot = _rt(o) if not isinstance(o, Root) else o.t
+            on = ot
+            for _ in range(self.n - 1):
+                on = on * ot
+            r = self.rad.t
+            t = {"gt": z3.Or(ot < 0, r > on), "ge": z3.Or(ot <= 0, r >= on), "lt": z3.And(ot > 0, r < on),
+                 "le": z3.And(ot >= 0, r <= on), "eq": z3.And(ot >= 0, r == on), "ne": z3.Or(ot < 0, r != on)}[op]
+            return SymBool(t)
+        return SymReal._cmp(self, o, op)
 
 
 # --------------------------------------------------------------------------------------------
@@ -802,7 +823,7 @@ class Ctx:
         self._add(t if d else z3.Not(t))
         return d
 
-    def concretize(self, t, limit=None, full_range=None):
+    def concretize(self, t, limit=None, full_range=None, linear_only=False):
         """all feasible integer values of `t` are enumerated through the solver; fork over them"""
         t = z3.simplify(t)
         if z3.is_int_value(t):
@@ -823,8 +844,22 @@ class Ctx:
             self.queries += 0
         else:
             excl = []
+            lin = None
+            if linear_only and self.nl:
+                # enumerate against the linear part of the path condition only (a superset of the feasible values:
+                # an infeasible choice only yields a path whose obligations hold vacuously)
+                lin = z3.Solver()
+                lin.set("timeout", self.timeout_ms)
+                lin.add(*[a for a in self.pc if not _is_nonlinear(a)])
             while True:
-                r, m = self._check(z3.And(*excl) if excl else z3.BoolVal(True), want_model=True)
+                if lin is not None:
+                    t0 = time.perf_counter()
+                    self.queries += 1
+                    rr = lin.check(*excl)
+                    r, m = str(rr), (lin.model() if rr == z3.sat else None)
+                    self.solver_s += time.perf_counter() - t0
+                else:
+                    r, m = self._check(z3.And(*excl) if excl else z3.BoolVal(True), want_model=True)
                 if r == "unsat":
                     break
                 if r == "unknown":
